@@ -35,9 +35,9 @@ int main(int argc, char ** argv) {
         hc::begin_case(std::to_string(idx));
         wd::arm(60, "c16c");
         Rng r(Rng::mix(seed ^ 0xC16C, (uint64_t)idx));
-        uint32_t cap = 1 + r.below(3); uint32_t n = r.below(5); bool xabort = r.chance(1, 3); int xdelay = r.below(12);
+        uint32_t cap = 1 + r.below(3); uint32_t n = r.below(5); int xkind = r.below(3); bool xabort = xkind == 1; bool xfull = xkind == 2; int xdelay = r.below(12);   // X: 0 setFileSize(tellp), 1 abort, 2 setFileSize(n) = total length declared up front
         int strategy = r.chance(3, 4) ? SCHED_RANDOM : SCHED_FAVOUR; int sparam = r.below(3);
-        std::ostringstream cfg; cfg << "cap=" << cap << " n=" << n << " x=" << (xabort ? "abort" : "setFileSize(tellp)") << " delay=" << xdelay << " strategy=" << strategy << "/" << sparam;
+        std::ostringstream cfg; cfg << "cap=" << cap << " n=" << n << " x=" << (xabort ? "abort" : xfull ? "setFileSize(n)" : "setFileSize(tellp)") << (idx % 2 ? " spurious" : "") << " delay=" << xdelay << " strategy=" << strategy << "/" << sparam;
         static std::string ctx; ctx = cfg.str() + " case=" + std::to_string(idx);
         sched_on_violation = [](const char * kind, const char * key, const char * report) {
             std::string rr = report; for (auto & ch : rr) if (ch == '\n') ch = '|';
@@ -47,6 +47,7 @@ int main(int argc, char ** argv) {
         long base = Tok::live;
         std::string err;
         sched_set_budget(100000);
+        sched_set_spurious(idx % 2 ? 40 : 0); sched_set_timeouts(idx % 4 == 3 ? 30 : 0);      // spurious wake-ups are legal for predicate waits
         sched_begin(Rng::mix(seed, (uint64_t)idx), strategy, sparam);
         {
             ObjectQueue<ObjectHeaderBase> q;
@@ -57,7 +58,7 @@ int main(int argc, char ** argv) {
             std::thread X([&] {
                 std::mutex m; for (int i = 0; i < xdelay; i++) { std::lock_guard<std::mutex> l(m); }   // scheduling points
                 xev.op = xabort ? ABORT : SETSIZE; xev.call = sched_steps();
-                if (xabort) q.abort(); else { xev.val = q.tellp(); q.setFileSize(xev.val); }
+                if (xabort) q.abort(); else { xev.val = xfull ? n : q.tellp(); q.setFileSize(xev.val); }
                 xev.ret = sched_steps(); xev.done = true;
             });
             for (;;) {
@@ -107,6 +108,8 @@ int main(int argc, char ** argv) {
             if (returned_before > got) viol("null-while-objects-remain", std::to_string(returned_before) + " writes had returned, " + std::to_string(got) + " delivered");
             // end-of-stream needs a declared end or an abort that was at least called before the read returned
             if (!(xev.call <= e.ret)) viol("eof-without-declared-end", "");
+            // with the total length declared up front and no abort, end-of-stream means every object was delivered
+            if (xfull && got != n) viol("eof-before-declared-size-consumed", std::to_string(got) + " of " + std::to_string(n) + " delivered");
         }
         if (xabort) aborts++;
         // (v) nothing leaked, nothing freed twice (ASan): queue destructor freed what was left
